@@ -7,8 +7,13 @@ def run(ctx):
     ctx.standin("hist_rt", families=("OO", "II") if ctx.tier == "quick" else ("OO", "II", "LF", "QQ", "fs", "IO", "UU", "LL"),
                 args=["--mode", "wf"])
     return "proof", (
-        "Engine P: the structure-changing leaf operations (%d functions: _split with its sibling link and halves, "
-        "_deleteNextBucket, _set/_del keeping the key list strictly sorted and the value list paired) are proved "
-        "for all inputs. Preservation of the node invariants I1-I9 by the interior-node mutators of both "
-        "implementations is checked after every call by the bounded stand-in hist_rt (wf mode: independent "
-        "walker + _check() + BTrees.check.check())." % len(fns))
+        "Engine P: (1) the structure-changing leaf operations (_split with its sibling link and halves, _deleteNextBucket, "
+        "_set/_del keeping the key list strictly sorted and the value list paired); (2) the WHOLE interior-node layer of the "
+        "Python implementation in the structural view (contracts f#struct on the real _Tree._set, _grow, _split, _split_root, "
+        "_del, _deleteNextBucket): every mutator preserves, node-locally and therefore for all trees (induction on height), "
+        "exactly the clauses _check() tests - children of one kind, non-empty, distinct, owning their lists; "
+        "_firstbucket is the first leaf; succ(child i) is fst(child i+1); subtrees well formed - with the first-leaf hand-off "
+        "of deletions, the linking of split halves and the root split; (3) _Tree._check itself (returns normally iff those "
+        "clauses hold). %d targets, every obligation discharged by z3. Key containment within separator ranges, node-size "
+        "limits, and the C implementation are checked after every call of bounded histories by the stand-in hist_rt (wf mode: "
+        "independent walker + _check() + BTrees.check.check())." % len(fns))
